@@ -48,7 +48,8 @@ class MuxWorld(World):
     stub_components = ("register back-ends (bare csr.Element ports driven by a seeded agent)",
                        "CSR initiator (seeded open-loop agent)")
     fault_kinds = ("abort", "gap", "rw_same_cycle", "unmapped_access", "byzantine_raw",
-                   "nonconforming_access", "registers_added_after_multiplexer_was_constructed")
+                   "nonconforming_access", "registers_added_after_multiplexer_was_constructed",
+                   "elaborated_while_still_being_populated")
     assumptions = (
         "Amaranth's Python RTL simulator executes the elaborated netlist faithfully",
         "protocol conformance is decided by the tracker in models/regfile.py from the property "
@@ -99,7 +100,8 @@ class MuxWorld(World):
         mode = rng.wchoice([("proto", 5), ("mixed", 3), ("raw", 2)])
         return {"dw": dw, "aw": aw, "al": al, "regs": regs, "ov": ov, "ov2": ov2, "mode": mode,
                 "hwseed": rng.bits(32),
-                "late": rng.range(1, max(1, len(regs))) if (regs and rng.chance(0.12)) else 0}
+                "late": rng.range(1, max(1, len(regs))) if (regs and rng.chance(0.12)) else 0,
+                "mid_elab": int(rng.chance(0.5))}
 
     def gen_ops(self, rng, config, prop):
         ops = []
@@ -140,10 +142,16 @@ class MuxWorld(World):
         dw, aw = config["dw"], config["aw"]
         hwseed = config["hwseed"]
         made = []
-        mm, placed, skipped = build_map(
-            config, lambda m_: made.append(hw.must_accept(
+
+        def make(m_):
+            made.append(hw.must_accept(
                 "C04" if "C04" in props else "C05", f"csr.Multiplexer(shadow_overlaps={config['ov']})",
-                csr.Multiplexer, m_, shadow_overlaps=config["ov"])))
+                csr.Multiplexer, m_, shadow_overlaps=config["ov"]))
+            if config.get("late") and config.get("mid_elab"):
+                # API order: the multiplexer is elaborated once before the map is complete
+                hw.elaborate_once(made[-1])
+                stats.fault("elaborated_while_still_being_populated")
+        mm, placed, skipped = build_map(config, make)
         dut = made[0]
         duts = [(dut, placed)]
         if config.get("late"):
